@@ -320,7 +320,10 @@ func (g *docGen) render(n *cnode) string {
 			}
 			return fmt.Sprintf(`<picture%s>%s<source srcset="/i/m%d-s.webp"%s>%s%s<img src="/i/m%d.png"%s>%s%s</picture>`, g.noiseAttrs(), sep, m, g.noiseAttrs(), before, sep, m, g.noiseAttrs(), after, sep)
 		case "lazy":
-			return fmt.Sprintf(`<img data-src="/i/m%d.png"%s>`, m, g.noiseAttrs())
+			// the place holder src of lazy loaders: nothing, a transparent pixel, or a data URI cut short
+			ph := g.pick("", "", ` src="data:image/gif;base64,R0lGODlhAQABAAAAACw="`, ` src="data:image/gif;base64"`, ` src="data:image/gif;base64,"`,
+				` src="data:,"`, ` src="data:"`, ` src=""`, ` src="about:blank"`)
+			return fmt.Sprintf(`<img%s data-src="/i/m%d.png"%s>`, ph, m, g.noiseAttrs())
 		case "wiki":
 			return fmt.Sprintf(`<span class="lazy-image-placeholder" data-src="/i/m%d.png" data-srcset="/i/m%d-2x.png 2x"></span>`, m, m)
 		case "alt":
